@@ -508,6 +508,16 @@ def build(spec, plain=False):
             a_.state_record_list = b_.state_record_list
             a_.cost_list = b_.cost_list
             a_.assigned_task_id_record = b_.assigned_task_id_record
+    for ts in spec.get("tasks", []):
+        if ts.get("copy_of"):
+            # a task cloned with copy.copy(template) and re-labelled / re-wired afterwards: its run-time containers are still the template's
+            a_, b_ = m.byname[ts.get("id") or ts["name"]], m.byname[ts["copy_of"]]
+            a_.allocated_worker_list = b_.allocated_worker_list
+            a_.allocated_facility_list = b_.allocated_facility_list
+            a_.state_record_list = b_.state_record_list
+            a_.remaining_work_amount_record_list = b_.remaining_work_amount_record_list
+            a_.allocated_worker_id_record = b_.allocated_worker_id_record
+            a_.allocated_facility_id_record = b_.allocated_facility_id_record
     for wps in spec.get("workplaces", []):
         if wps.get("copy_of"):
             a_, b_ = m.byname[wps.get("id") or wps["name"]], m.byname[wps["copy_of"]]
